@@ -462,3 +462,60 @@ def _subst_facts(facts, old, new):
         f.atoms[a2] = pol
         f.order.append((a2, pol))
     return f
+
+
+def prove_pos(form, facts, depth=0):
+    """Is `form` > 0 under the facts?  (single positive atom known > 0, or positive constant, after reduction;
+    min/max atoms are case-split like prove_zero)"""
+    ls = linsys_from_facts(facts)
+    r = ls.reduce(form)
+    if r.is_const():
+        return (r.k > 0), "constant %s" % r.k
+    pos_atoms = [(a, v) for a, v in r.c.items()]
+    if all(v > 0 for a, v in pos_atoms) and r.k >= 0:
+        # every atom is unsigned; positive if at least one atom is known > 0
+        for a, v in pos_atoms:
+            if facts.decide_atom(("lt", Int(0), a)) is True:
+                return True, None
+    mm = _find_minmax(r) if depth < 5 else None
+    if mm is None:
+        return False, "residual %r is not known to be positive" % r
+    a, b = mm[1], mm[2]
+    gt = facts.decide_atom(("lt", b, a))
+    lt = facts.decide_atom(("lt", a, b))
+    if mm[0] == "min":
+        v1, v2 = a, b
+    elif mm[0] == "max":
+        v1, v2 = b, a
+    else:
+        v1, v2 = Int(0), ("bin", "Sub", a, b)
+    poss = []
+    if gt is not True:
+        poss.append((v1, ("lt", b, a), False))
+    if gt is not False and lt is not True:
+        poss.append((v2, ("lt", b, a), True))
+    for val, atom, pol in poss:
+        f2 = facts.copy()
+        if f2.decide_atom(atom) is None:
+            f2.atoms[atom] = pol
+            f2.order.append((atom, pol))
+        f3 = _subst_facts(f2, mm, val)
+        ok, why = prove_pos(subst_affine(form, mm, val), f3, depth + 1)
+        if not ok:
+            return False, "case %s=%s: %s" % (short(mm), short(val), why)
+    return True, None
+
+
+def get_field(t, name, variant=None):
+    """field `name` of a struct-like term: constructed aggregate, functional update chain, or projection"""
+    while isinstance(t, tuple):
+        if t[0] == "agg":
+            d = dict(t[3])
+            return d.get(name)
+        if t[0] == "upd":
+            if t[2][0] == "f" and t[2][2] == name:
+                return t[3]
+            t = t[1]
+            continue
+        break
+    return ("field", t, variant, name)
